@@ -240,29 +240,16 @@ func compareDebianDigits(a, b string) int {
 		return 1
 	}
 
-	// Convert to integers for comparison
-	aNum, aErr := strconv.ParseUint(a, 10, 64)
-	bNum, bErr := strconv.ParseUint(b, 10, 64)
-
-	if aErr == nil && bErr == nil {
-		if aNum < bNum {
+	// Compare as non-negative integers of any length: ignore leading zeros,
+	// then the longer run is the larger number and runs of equal length
+	// compare digit by digit, which for ASCII digits is the byte order.
+	a = strings.TrimLeft(a, "0")
+	b = strings.TrimLeft(b, "0")
+	if len(a) != len(b) {
+		if len(a) < len(b) {
 			return -1
 		}
-		if aNum > bNum {
-			return 1
-		}
-		return 0
-	}
-
-	// Fallback for very large numbers that don't fit in uint64.
-	// Compare by length first.
-	if len(a) < len(b) {
-		return -1
-	}
-	if len(a) > len(b) {
 		return 1
 	}
-
-	// If lengths are equal, a string comparison is correct.
 	return strings.Compare(a, b)
 }
